@@ -32,9 +32,10 @@ import gen_funcs
 REPO = Path(os.environ.get("VERIF_REPO", "/repo"))
 LEAN = ROOT / "lean"
 GEN = LEAN / "CollectionsC" / "Generated"
-PROPS = [LEAN / "CollectionsC" / "Properties" / "C19Gen.lean", LEAN / "CollectionsC" / "Properties" / "C12Gen.lean"]
+PROPS = [LEAN / "CollectionsC" / "Properties" / "C19Gen.lean", LEAN / "CollectionsC" / "Properties" / "C12Gen.lean",
+         LEAN / "CollectionsC" / "Properties" / "C10Gen.lean"]
 LIB = LEAN / ".lake" / "build" / "lib" / "lean"
-RB, SP = "src/cc_ring_buffer.c", "src/memory/cc_static_pool.c"
+RB, SP, PQ = "src/cc_ring_buffer.c", "src/memory/cc_static_pool.c", "src/cc_pqueue.c"
 
 SCENARIOS = [
     ("baseline", [], set()),
@@ -78,6 +79,18 @@ SCENARIOS = [
     ("E12 destroy no longer releases the struct (leak)",
      [(RB, "cc_rbuf_destroy", "rbuf->mem_free(rbuf);", "")],
      {"rbuf_destroy_agrees"}),
+    ("P1 pqueue heapify: `L < pq->size` -> `<=` (reads one slot past the heap)",
+     [(PQ, "cc_pqueue_heapify", "L < pq->size", "L <= pq->size")],
+     {"heapify_step"}),
+    ("P2 pqueue push: the sift-up loop stops at `>= 0` instead of `> 0`",
+     [(PQ, "cc_pqueue_push", "pq->cmp(child, parent) > 0", "pq->cmp(child, parent) >= 0")],
+     {"loop_step_pos", "loop_step_neg"}),
+    ("P3 pqueue macro: `CC_PARENT` divides by 3",
+     [(PQ, None, "#define CC_PARENT(x)  ((x > 0) ? (x - 1) / 2 : 0)", "#define CC_PARENT(x)  ((x > 0) ? (x - 1) / 3 : 0)")],
+     {"loop_step_pos", "push_room"}),
+    ("P4 pqueue constructor: the byte-size guard dropped",
+     [(PQ, "cc_pqueue_new_conf", "if (conf->capacity > CC_MAX_ELEMENTS / sizeof(void*))\n        return CC_ERR_INVALID_CAPACITY;", "")],
+     {"pq_new_conf_agrees"}),
     ("W1 width: `size_t head, tail;` -> `uint8_t head, tail;` (must be refused)",
      [(RB, None, "    size_t head, tail;", "    uint8_t head, tail;")], None),
     ("W2 width: `(size_t) index` -> `(uint8_t) index` in peek (must be refused)",
@@ -102,6 +115,17 @@ SCENARIOS = [
       (SP, "cc_static_pool_free_bytes", "return pool->size - (pool->free_ptr - pool->low_ptr);",
        "size_t n = pool->size;\n    n -= (pool->free_ptr - pool->low_ptr);\n    return n;")],
      set()),
+    ("HP pqueue behaviour-preserving: locals renamed, `size++` as `+= 1`, a swap through a differently named temporary, `break` instead of a conjunct of the loop condition",
+     [(PQ, "cc_pqueue_heapify", "size_t tmp = index;", "size_t start = index;"),
+      (PQ, "cc_pqueue_heapify", "if (index != tmp) {", "if (index != start) {"),
+      (PQ, "cc_pqueue_heapify", "void *swap_tmp = pq->buffer[tmp];\n        pq->buffer[tmp] = pq->buffer[index];",
+       "void *held = pq->buffer[start];\n        pq->buffer[start] = pq->buffer[index];"),
+      (PQ, "cc_pqueue_heapify", "pq->buffer[index] = swap_tmp;", "pq->buffer[index] = held;"),
+      (PQ, "cc_pqueue_push", "pq->size++;", "pq->size += 1;"),
+      (PQ, "cc_pqueue_push", "while (i != 0 && pq->cmp(child, parent) > 0) {",
+       "while (i != 0) {\n        if (!(pq->cmp(child, parent) > 0))\n            break;"),
+      (PQ, "cc_pqueue_pop", "pq->size--;", "pq->size -= 1;")],
+     set()),
 ] + [
     (f"{h} behaviour-preserving rewrite seeded_harmless/{h}/patch.diff", [("patch", ROOT / "seeded_harmless" / h / "patch.diff")], set())
     for h in ("H6-1", "H6-2", "H6-3") if (ROOT / "seeded_harmless" / h / "patch.diff").exists()
@@ -121,7 +145,17 @@ def mutate(repo, f, fname, old, new):
             raise SystemExit(f"self-test: `{old}` occurs {txt.count(old)} times in {f}")
         p.write_text(txt.replace(old, new))
         return
-    m = re.search(r"^(?:\w[\w \*]*)?\b" + re.escape(fname) + r"\s*\(", txt, re.M)
+    m = None
+    for cand in re.finditer(r"^(?:\w[\w \*]*)?\b" + re.escape(fname) + r"\s*\(", txt, re.M):
+        depth, j = 0, cand.end() - 1
+        while j < len(txt):
+            depth += (txt[j] == "(") - (txt[j] == ")")
+            if depth == 0:
+                break
+            j += 1
+        if txt[j + 1:].lstrip().startswith("{"):      # a definition, not a prototype
+            m = cand
+            break
     if not m:
         raise SystemExit(f"self-test: {fname} not found in {f}")
     end = txt.index("\n}", m.start())
